@@ -1174,6 +1174,10 @@ class Analyzer:
             return self.apply_summaries(cands, n, args, kwargs, recv, env, ctor_cls=ctor_cls)
 
         # --- numpy / astropy tables ----------------------------------------------------------
+        if short in ('vstack', 'hstack') and not is_np and args:
+            # astropy.table.vstack / hstack return the input table itself when given a single
+            # table: the result may be any element of the list passed
+            return elems(args[0]).join(FRESHV)
         if fname in T.ALIAS_FUNCS or (is_np and short in T.ALIAS_FUNC_SHORT):
             cp = kwnodes.get('copy')
             if isinstance(cp, ast.Constant) and cp.value is True:
